@@ -49,6 +49,10 @@ func vMutate(z *Bitmap, mk int) {
 	case 5:
 		z.RunOptimize()
 		z.Add(vArg32())
+	case 6:
+		// a batch whose first value may already be present (AddMany keeps writing into the chunk it looked up first)
+		x := vArg32()
+		z.AddMany([]uint32{x, x + 1, x + 2})
 	}
 }
 
